@@ -69,6 +69,24 @@ def cases(tier, rng):
     def binop(k, op, ff, a, b, ka=0, kb=0):
         add(k, "%s %s %s | %s" % (op, ff, grp(a, ka), grp(b, kb)))
 
+    # 0. sparse operands of LARGE degree (closed-form specification in the oracle, model not run): domain-size bookkeeping
+    # (next_power_of_two / resize) at sizes the model cannot be executed at: 2^k-1, 2^k, 2^k+1 up to 2^20
+    for k in ((12, 15, 17, 19, 20) if not big else (12, 14, 15, 16, 17, 18, 19, 20, 21)):
+        n = 2**k
+        for (a, b) in ((n, n), (n - 1, n), (n - 1, 1), (n // 2, n // 2), (n // 2 - 1, n // 2 + 1), (n, 0), (n + 1, n - 2), (3 * n // 4, n // 4)):
+            for f in ("b", "x") if k <= 19 else ("b",):
+                c1, d1, c2, d2 = (rng.choice((1, P - 1, 2, rng.randrange(1, P))) for _ in range(4))
+                for which in ("multiply", "fast"):
+                    add("sparse-large", "sparse %s %s | %d %d %d | %d %d %d" % (f, which, a, c1, d1, b, c2, d2))
+        for a in (n // 2, n // 2 - 1, n // 4, n // 4 + 1):
+            for f in ("b", "x") if k <= 19 else ("b",):
+                c1, d1 = rng.choice((1, P - 1, 3)), rng.choice((1, 2, rng.randrange(1, P)))
+                add("sparse-large", "sparse %s square | %d %d %d | 0 0 0" % (f, a, c1, d1))
+                add("sparse-large", "sparse %s fastsq | %d %d %d | 0 0 0" % (f, a, c1, d1))
+        for e in (2, 3, 4, 7, 8):
+            a = n // e
+            add("sparse-large", "sparse b fastpow | %d %d %d | %d 0 0" % (a, rng.choice((1, 2, P - 1)), rng.choice((1, 3)), e))
+            add("sparse-large", "sparse b fastpow | %d %d %d | %d 0 0" % (a - 1, 1, 1, e))
     # 1. multiply threshold: degree sums 254..258, several splits, all four field pairs
     for total in (254, 255, 256, 257, 258):
         splits = [(total // 2, total - total // 2), (0, total), (total, 0), (1, total - 1), (200, total - 200), (total - 3, 3)]
